@@ -329,6 +329,20 @@ where
         }
     };
     if spec.via_request {
+        if let Some(q2) = spec.query2.clone() {
+            // two extractions from one request, the URI rewritten in between
+            let q1 = spec.query.clone();
+            return Box::pin(async move {
+                let mut srv = actix_web::test::TestRequest::default().uri(&format!("/search?{q1}")).to_srv_request();
+                let mut payload = actix_web::dev::Payload::None;
+                let first = map(AwebQueryParameter::<T, E>::from_request(srv.request(), &mut payload).await);
+                if let Ok(uri) = format!("/search?{q2}").parse::<actix_web::http::Uri>() {
+                    srv.head_mut().uri = uri;
+                }
+                let second = map(AwebQueryParameter::<T, E>::from_request(srv.request(), &mut payload).await);
+                Out::Ok(format!("first: {} || second (current query {:?}): {}", first.render(), srv.request().query_string(), second.render()))
+            });
+        }
         let req = actix_request(spec);
         let mut payload = actix_web::dev::Payload::None;
         let fut = AwebQueryParameter::<T, E>::from_request(&req, &mut payload);
@@ -347,6 +361,37 @@ where
     T: Deserr<E> + Debug + 'static,
     E: DeserializeError + ExpectedResponse + 'static,
 {
+    let one = |q: String| -> Out {
+        match actix_web::web::Query::<serde_json::Value>::from_query(&q) {
+            Err(e) => {
+                let e: actix_web::Error = e.into();
+                let (status, body, _) = actix_resp(&e);
+                Out::Framework { status, body, display: e.to_string() }
+            }
+            Ok(doc) => match deserr::deserialize::<T, _, E>(doc.into_inner()) {
+                Ok(v) => Out::Ok(format!("{v:?}")),
+                Err(de) => {
+                    let (status, body, tok) = de.expected();
+                    Out::DeserrErr { err: format!("{de:?}"), status, body, tok_header: tok }
+                }
+            },
+        }
+    };
+    if spec.via_request {
+        if let Some(q2) = spec.query2.clone() {
+            let q1 = spec.query.clone();
+            return Box::pin(async move {
+                // what the request's query string is at each moment, as the framework sees it
+                let mut srv = actix_web::test::TestRequest::default().uri(&format!("/search?{q1}")).to_srv_request();
+                let first = one(srv.request().query_string().to_string());
+                if let Ok(uri) = format!("/search?{q2}").parse::<actix_web::http::Uri>() {
+                    srv.head_mut().uri = uri;
+                }
+                let second = one(srv.request().query_string().to_string());
+                Out::Ok(format!("first: {} || second (current query {:?}): {}", first.render(), srv.request().query_string(), second.render()))
+            });
+        }
+    }
     let q = spec.query.clone();
     Box::pin(async move {
         match actix_web::web::Query::<serde_json::Value>::from_query(&q) {
